@@ -1184,4 +1184,10 @@ impl PlayPhase {
     pub fn hash_history(&self) -> &List<Zobrist> {
         &self.hash_history
     }
+
+    /// Read-only view of the hash recorded at the start of the current turn (monitoring hook).
+    #[cfg(feature = "verif-hooks")]
+    pub fn verif_initial_hash_of_move(&self) -> Zobrist {
+        self.initial_hash_of_move
+    }
 }
